@@ -63,10 +63,10 @@ func (w *world) storeTips() (ft, bt int, tip int) {
 	return int(fh), int(bh), w.hid(*th)
 }
 
-var liarModes = []string{"omit-c", "omitall-c", "omitin-c", "extra-c", "opret-c", "adv-true", "adv-silent", "zero"}
+var liarModes = []string{"omit-c", "omitall-c", "omitin-c", "omitunp-c", "extra-c", "opret-c", "adv-true", "adv-silent", "zero"}
 
 // modes of colluding liars: several peers serve the SAME self-consistent false filter
-var colludeModes = []string{"omit-c", "omit-c", "omitall-c", "omitin-c", "extra-c"}
+var colludeModes = []string{"omit-c", "omit-c", "omitall-c", "omitin-c", "omitunp-c", "omitunp-c", "omitunp-c", "extra-c"}
 
 // planRound chooses behaviours for np peers for the batch start..stop.
 func (w *world) planRound(np, start, stop, tip int, forced []string, forcedD []int) []*rpeer {
@@ -169,6 +169,9 @@ func (w *world) planRound(np, start, stop, tip int, forced []string, forcedD []i
 				switch mode {
 				case "omit-c":
 					fids[h-start] = w.variant(b, "omit-some")
+					rp.served[h] = fids[h-start]
+				case "omitunp-c":
+					fids[h-start] = w.variant(b, "omit-unparsable")
 					rp.served[h] = fids[h-start]
 				case "omitall-c":
 					fids[h-start] = w.variant(b, "omit-all")
